@@ -1,6 +1,6 @@
 """C02 The hash equals the value defined by the written specification."""
 import astq
-from rules import aes, argon, blake, decode, driver, dsinit, interpsem, spec, sshash, x86loop, rtpreserve, a64sem, a64hsem, rvhsem, x86hsem, a64dsread, rvdsread
+from rules import aes, argon, blake, decode, driver, dsinit, interpsem, spec, sshash, x86loop, rtpreserve, a64sem, a64hsem, rvhsem, x86hsem, a64dsread, rvdsread, a64fp
 
 LEVEL = 'other'
 TECHNIQUE = 'constant-table and step-sequence agreement between doc/specs.md (parsed tables, hex blocks, lane diagrams) and the resolved AST / assembled objects; FIPS-197 decomposition for the AES round'
@@ -18,6 +18,8 @@ CLAIM += (' The engines that compute the hash are held against the same specific
 EXPLANATION += ' X86-HSEM/-MEM/-FP, A64-HSEM/-MEM, A64-IMMHELP, RV-HSEM/-MEM, A64-/RV-DSREAD-HSEM, X86-LOOPSTORE, A64-/RV-RT-STOREORDER.'
 
 EXPLANATION += ' X86-/A64-/RV-LOOPLOAD.'
+
+EXPLANATION += ' A64-FP-HSEM.'
 
 
 def run(ctx, R):
@@ -72,3 +74,4 @@ def run(ctx, R):
     rvdsread.rule_loopload(ctx, R)
     rvdsread.rule_dsread_light(ctx, R)
     rtpreserve.rule_store_order(ctx, R, 'rv64')
+    a64fp.rule_fp_hsem(ctx, R)
